@@ -17,7 +17,7 @@ ASSUMPTIONS = [
     "observes it (C01)",
 ]
 MIN_NONTRIVIAL = {"quick": 10, "thorough": 40}
-SCHEDULES = ["fill-drain", "balanced", "trickle", "bursty", "consumer-stalls"]
+SCHEDULES = ["fill-drain", "balanced", "trickle", "bursty", "consumer-stalls", "full-slow-consumer"]
 
 
 def cases(tier, seed):
@@ -28,7 +28,7 @@ def cases(tier, seed):
         bypass = (k % 3) != 0
         ratio = r.choice([1, 2, 4, 8]) if bypass else 1
         dw = r.choice([8, 16, 32])
-        depth_words = r.choice([4, 8, 8, 16, 32, 64])
+        depth_words = r.choice([4, 8, 8, 16, 32, 64, 16, 48, 24, 112 if tier == "thorough" else 48])
         c = dict(bypass=bypass, ratio=ratio, dw=dw, depth_words=depth_words, base_words=r.choice([0, 16, 1000]),
                  schedule=SCHEDULES[k % len(SCHEDULES)], factor=r.randint(5, 14) if tier == "quick" else r.randint(5, 50),
                  cmd_ready_prob=r.choice([1.0, 0.7, 0.4]), extra_lat=r.choice([(0, 0), (0, 8), (0, 30)]),
@@ -69,6 +69,12 @@ class RatePlan:
                 p = (r.choice([0.05, 0.1]), r.choice([0.05, 1.0]))
             elif schedule == "bursty":
                 p = r.choice([(1.0, 1.0), (1.0, 0.0), (0.0, 1.0), (0.3, 0.3)])
+            elif schedule == "full-slow-consumer":
+                # saturating producer; the consumer stalls until everything (pre FIFO, DRAM ring, reader FIFO, post FIFO) is
+                # full, then pops slowly and irregularly so that the whole path sits at "exactly full" for a long time
+                p = [(1.0, 0.0), (1.0, 0.2), (1.0, 0.1), (0.2, 1.0)][len(self.phases) % 4]
+                if len(self.phases) % 4 == 0:
+                    ln = max(ln, min(total // 5 + 200, 3000))     # stream >= 5x depth: long enough to fill, below the progress bound
             else:
                 p = (1.0, 0.0) if len(self.phases) % 3 == 0 else (r.choice([0.3, 1.0]), 1.0)
             self.phases.append((t, t + ln, p))
